@@ -16,8 +16,14 @@
    specification follows the project):
    - D1 a field of a oneof may not be set by an option statement when another field of that oneof is
         already set (protoc accepts and the last one wins; protobuf issue 9125).
+   Text-format leniencies of protoc inside message literals:
+   - L1 for float and double fields the words inf, infinity and nan are recognised in any letter case (the project's
+        parser tests document this: success_inf_nan_in_message_literal).  The specification has it (ci = true);
+        ci = false is the variant without it and only serves to attribute a disagreement to this rule.
+   - L2 NOT transcribed: protoc's text format also takes the integers 0 and 1 for bool fields.  Nothing in the
+        project documents it; here the specification follows the implementation (an integer is rejected).
    Everything else follows protoc.  Definitions only. *)
-From Coq Require Import List ZArith NArith Bool String.
+From Coq Require Import List ZArith NArith Bool String Ascii.
 From PV Require Import Model.Options.
 Import ListNotations.
 Open Scope Z_scope.
@@ -47,12 +53,28 @@ Definition true_words (inlit : bool) : list string :=
 Definition false_words (inlit : bool) : list string :=
   if inlit then ["f"; "false"; "False"]%string else ["false"]%string.
 
-Definition spec_float (single : bool) (v : oval) : res sval :=
+(* ASCII lower case *)
+Definition lower_ascii (a : ascii) : ascii :=
+  let n := N_of_ascii a in
+  if (N.leb 65 n && N.leb n 90)%bool then ascii_of_N (n + 32) else a.
+Fixpoint lower (s : string) : string :=
+  match s with
+  | EmptyString => EmptyString
+  | String a r => String (lower_ascii a) (lower r)
+  end.
+(* the special float words; ci: case-insensitive and with infinity, inside message literals (L1) *)
+Definition float_word (ci inlit : bool) (id : string) : option fl :=
+  if ci && inlit then
+    (let w := lower id in
+     if String.eqb w "inf" || String.eqb w "infinity" then Some (FInf false)
+     else if String.eqb w "nan" then Some FNaN else None)
+  else
+    (if String.eqb id "inf" then Some (FInf false) else if String.eqb id "nan" then Some FNaN else None).
+
+Definition spec_float (ci : bool) (single : bool) (v : oval) (inlit : bool) : res sval :=
   let rnd m e := if single then to_f32 m e else to_f64 m e in
   match v with
-  | OIdent id =>
-    if String.eqb id "inf" then Ok (SFloat (FInf false))
-    else if String.eqb id "nan" then Ok (SFloat FNaN) else Err EType
+  | OIdent id => match float_word ci inlit id with Some f => Ok (SFloat f) | None => Err EType end
   | OFloat (FFin m e) => Ok (SFloat (if single then to_f32 m e else norm_fin m e))
   | OFloat d => Ok (SFloat d)
   | OInt z => Ok (SFloat (rnd z 0))
@@ -60,7 +82,7 @@ Definition spec_float (single : bool) (v : oval) : res sval :=
   | _ => Err EType
   end.
 
-Definition spec_scalar (k : kind) (v : oval) (inlit : bool) : res sval :=
+Definition spec_scalar (ci : bool) (k : kind) (v : oval) (inlit : bool) : res sval :=
   match int_range k with
   | Some (lo, hi) =>
     match num_value v with
@@ -77,8 +99,8 @@ Definition spec_scalar (k : kind) (v : oval) (inlit : bool) : res sval :=
       | _ => Err EType
       end
     | KString | KBytes => match v with OStr s => Ok (SStr s) | _ => Err EType end
-    | KFloat => spec_float true v
-    | KDouble => spec_float false v
+    | KFloat => spec_float ci true v inlit
+    | KDouble => spec_float ci false v inlit
     | _ => Err EUnmodelled
     end
   end.
@@ -103,6 +125,7 @@ Definition spec_enum (ed : enumdesc) (v : oval) (inlit : bool) : res sval :=
 Section Spec.
 Variable sch : schema.
 Variable tt : N.
+Variable ci : bool.      (* true = protoc; see L1 *)
 
 Definition target_ok (f : field) : bool :=
   match ftargets f with [] => true | ts => existsb (N.eqb tt) ts end.
@@ -192,7 +215,7 @@ Fixpoint spec_value (fld : field) (v : oval) (inlit : bool) {struct v} : res val
     | OMsg fs => spec_lit_loop (fun g x => spec_value g x true) md fs []
     | _ => Err ETypeMessage
     end
-  | k => match spec_scalar k v inlit with Ok s => Ok (VS s) | Err x => Err x end
+  | k => match spec_scalar ci k v inlit with Ok s => Ok (VS s) | Err x => Err x end
   end.
 
 (* (1) the path: every part but the last must be a singular message field *)
@@ -284,22 +307,29 @@ Definition schema_explicit (sch : schema) : bool :=
 
 (* ------------------------------------------------------------------ the implementation against the specification *)
 (* same value, or both reject (the error class is not part of the property) *)
-Definition spec_chk (c : opt_case) : bool :=
+Definition spec_chk_gen (ci : bool) (c : opt_case) : bool :=
   match c with
   | OC sch tg T stmts os _ _ =>
     schema_wf sch &&
-    match protoc_interpret sch tg T [] stmts, os with
+    match protoc_interpret sch tg ci T [] stmts, os with
     | Ok m, ObsOk tree idx => mval_eqb (wire sch T m) tree && match idx with [] => true | _ => false end
     | Err _, (ObsErr _ | ObsPanic | ObsOther) => true
     | _, _ => false
     end
   end.
+Definition spec_chk : opt_case -> bool := spec_chk_gen true.
 
-(* what the lexer guarantees about the integer literals of a value, at every depth *)
+(* an identifier is plain when it is not a letter-case variant of inf / infinity / nan other than inf and nan *)
+Definition plain_word (id : string) : bool :=
+  let w := lower id in
+  negb (String.eqb w "inf" || String.eqb w "infinity" || String.eqb w "nan") || String.eqb id "inf" || String.eqb id "nan".
+(* guard on the values of statements, at every depth: the integer literals are what the lexer produces (a negative
+   one fits int64, a non-negative one uint64) and the identifiers are plain *)
 Fixpoint lexable_b (v : oval) : bool :=
   match v with
   | OInt z => (- 2 ^ 63 <=? z) && (z <=? 2 ^ 63 - 1)
   | OUint n => (0 <=? n) && (n <=? 2 ^ 64 - 1)
+  | OIdent id => plain_word id
   | OMsg fs => forallb (fun p => lexable_b (snd p)) fs
   | OList es => forallb lexable_b es
   | _ => true
